@@ -93,7 +93,7 @@ type witness struct {
 }
 
 func run(r *ev.Run, cfg props.Cfg) {
-	nHist := cfg.Pick(300, 6000)
+	nHist := cfg.Pick(1200, 20000)
 	var wg sync.WaitGroup
 	per := (nHist + cfg.Workers - 1) / cfg.Workers
 	for wk := 0; wk < cfg.Workers; wk++ {
